@@ -213,6 +213,32 @@ Definition c08_clauses (c : case) (a : atx) : list (N * bool) :=
     (201%N, if multi || shared then true
             else forallb (fun r => bool_decide (r ∈ got_sm)) (spec_spend ++ spec_mint)
                  && forallb (fun r => bool_decide (r ∈ spec_spend ++ spec_mint)) got_sm);
+    (203%N, (* a Reward redeemer points at its account in the ledger's order of reward accounts:
+               network, script credentials before key credentials, hash (written here from the
+               ledger's rule, independently of Compile.sort_accts) *)
+      let accts := map fst (from_option id [] (a_withdrawals a)) in
+      let ledger_lt (x y : bytes) : bool :=
+        match x, y with
+        | hx :: bx, hy :: by_ =>
+          let nx := N.land hx 15 in let ny := N.land hy 15 in
+          let sx := negb (N.land hx 16 =? 0)%N in let sy := negb (N.land hy 16 =? 0)%N in
+          if (nx <? ny)%N then true else if (ny <? nx)%N then false
+          else if sx && negb sy then true else if sy && negb sx then false
+          else bytes_ltb bx by_
+        | _, _ => false
+        end in
+      forallb (fun d => match data_get "redeemer" (ad_data d), data_get "credential" (ad_data d) with
+                        | Some ENone, _ | None, _ => true
+                        | Some red, Some (EAddress acct) =>
+                          if bool_decide (acct ∈ accts) then
+                            match try_as_data red with
+                            | Ok dd => let rank := length (filter (fun k => ledger_lt k acct) accts) in
+                                       bool_decide (mk_ared 3 (Z.of_nat rank) (PlutusData.encode dd) ∈ got)
+                            | _ => true
+                            end
+                          else true
+                        | _, _ => true end)
+              (filter (fun d => bool_decide (ad_name d = "withdrawal"%string)) (tx_adhoc t)));
     (202%N, (* every withdrawal directive with a redeemer yields a Reward redeemer *)
       let want := length (filter (fun d => bool_decide (ad_name d = "withdrawal"%string) &&
                                            match data_get "redeemer" (ad_data d) with Some ENone | None => false | Some _ => true end)
